@@ -1405,16 +1405,15 @@ def load(
     file_skip_types_raw = cast(
         Sequence[str] | None, root.attrs.get("_autoserialize_skip_types", [])
     )
+    def _type_from_name(t: str) -> type:
+        # Import a type by its fully-qualified "<module>.<qualname>" string
+        if t == "builtins.NoneType":
+            return type(None)  # not a name in the builtins module
+        mod_name, _, name = t.rpartition(".")
+        return __import__(mod_name, fromlist=[name]).__dict__[name]
+
     file_skip_types = (
-        tuple(
-            # Import each type by fully-qualified name from string
-            __import__(t.rpartition(".")[0], fromlist=[t.rpartition(".")[2]]).__dict__[  # type: ignore[index]
-                t.rpartition(".")[2]
-            ]
-            for t in file_skip_types_raw
-        )
-        if file_skip_types_raw
-        else tuple()
+        tuple(_type_from_name(t) for t in file_skip_types_raw) if file_skip_types_raw else tuple()
     )
 
     # Merge user-specified and file-stored skip lists/types (avoid duplicates)
